@@ -158,3 +158,30 @@ def run(ctx):
         ctx.violation("staticsource-%s" % i["trait"].rsplit("::", 1)[1], i.get("span", "-"), "StaticSource implements %s: two owners could reclaim (free) the same source text" % i["trait"])
     ctx.need("lace::symbol::StaticSource" in prog.adts, "struct StaticSource")
     ctx.finish_rule()
+
+    ctx.rule("C19.R6", "the assembler only looks labels up by key: nothing on the assemble path depends on the symbol table's iteration order", floor=2)
+    import re as _re
+    reach_a = ctx.cg.reachable(list(STAGES))
+    KEYED = ("get", "get_mut", "insert", "contains_key", "remove", "entry", "len", "is_empty", "clear", "get_key_value", "new", "default", "with_hasher", "with_capacity_and_hasher")
+    uses = []
+    for n in sorted(reach_a):
+        f_ = prog.fns.get(n)
+        if f_ is None:
+            continue
+        for b, t, c in f_.calls():
+            m = _re.search(r"collections::hash::(map::HashMap|set::HashSet)(::)?<.*>::(\w+)$", c or "") or _re.search(r"hashbrown::.*::(\w+)$", c or "")
+            if m:
+                uses.append((n, m.group(m.lastindex), t.get("sp")))
+            elif c and _re.search(r"IntoIterator>::into_iter$", c) and "HashMap" in (t.get("arg_tys") or [""])[0]:
+                uses.append((n, "into_iter", t.get("sp")))
+    ctx.need(uses, "hash-map operations on the assemble path")
+    for n, meth, sp_ in uses:
+        ctx.instance(1)
+        ok = meth in KEYED
+        ctx.oblig(ok, {"in": short(n), "operation": meth}, "keyed access")
+        if not ok:
+            ctx.violation("symtab-order|fn=%s|%s" % (short(n), meth), sp_file_line(sp_),
+                          "`%s` iterates the symbol table (%s) while assembling: the order of a hash table depends on its capacity, which reset_state's clear() keeps from "
+                          "earlier assemblies, so the outcome is no longer a function of the source text alone" % (short(n), meth))
+    ctx.finish_rule()
+
